@@ -7,40 +7,12 @@
                      else Err, data unchanged, pos unchanged
      pos(ty)       : Ok(pos) iff pos fits the type, else overflow error
    and no call panics.  Episodes (k = 0 starts one) are independent initial states. *)
-EXTENDS ChaChaFn, Json, IOUtils, TLC
+EXTENDS StreamIdeal, Json, IOUtils, TLC
 Rec == ndJsonDeserialize(IOEnv.TRACE)
 N == Len(Rec)
 VARIABLES l, st, bad
 vars == <<l, st, bad>>
 Starts == {i \in 1..N : Rec[i].k = 0}
-TotalBytes(v) == WShl(TotalBlocks(v), 6)
-U64MAX8 == <<65535, 65535, 65535, 65535, 0, 0, 0, 0>>
-TypeMax(ty) == CASE ty = "u8" -> <<255, 0, 0, 0, 0, 0, 0, 0>>
-                 [] ty = "u16" -> <<65535, 0, 0, 0, 0, 0, 0, 0>>
-                 [] ty = "u32" -> <<65535, 65535, 0, 0, 0, 0, 0, 0>>
-                 [] ty = "i32" -> <<65535, 32767, 0, 0, 0, 0, 0, 0>>
-                 [] ty \in {"u64", "usize"} -> U64MAX8
-                 [] ty = "u128" -> <<65535, 65535, 65535, 65535, 65535, 65535, 65535, 65535>>
-InitSt(e) == [variant |-> e.variant, ekey |-> EffKey(e.variant, e.key, e.nonce), nonce |-> e.nonce, pos |-> <<0, 0, 0, 0, 0>>]
-\* returns <<accepted, st'>>
-StepSeek(s, e) == LET convertible == ~e.neg /\ WLe(e.val, U64MAX8)
-                      ok == convertible /\ WLe(e.val, WResize(TotalBytes(s.variant), 8))
-                  IN IF ok THEN <<e.res = "ok", [s EXCEPT !.pos = WResize(e.val, 5)]>>
-                     ELSE <<e.res = "err", s>>
-StepApply(s, e) == LET endp == WAdd(s.pos, WOfInt(e.n, 5))
-                       ok == WLe(endp, TotalBytes(s.variant))
-                   IN IF ok THEN << /\ e.res = "ok" /\ e.guard /\ Len(e.after) = e.n
-                                    /\ e.after = BXor(e.before, KSFrom(s.variant, s.ekey, s.nonce, s.pos, e.n)),
-                                    [s EXCEPT !.pos = endp] >>
-                      ELSE << e.res = "err" /\ e.guard /\ e.after = e.before, s >>
-StepPos(s, e) == LET p8 == WResize(s.pos, 8)
-                 IN IF WLe(p8, TypeMax(e.ty)) THEN <<e.res = "ok" /\ e.val = p8, s>> ELSE <<e.res = "ovf", s>>
-\* the harness put the instance, through its public fields, into the state the model has at position e.pos
-StepTeleport(s, e) == <<e.res = "ok", [s EXCEPT !.pos = e.pos]>>
-Step(s, e) == CASE e.ev = "seek" -> StepSeek(s, e)
-                [] e.ev = "teleport" -> StepTeleport(s, e)
-                [] e.ev = "apply" -> StepApply(s, e)
-                [] e.ev = "pos" -> StepPos(s, e)
 Init == \E i \in Starts : l = i /\ st = InitSt(Rec[i]) /\ bad = FALSE
 Next == /\ ~bad /\ l < N /\ Rec[l + 1].k # 0
         /\ LET e == Rec[l + 1]
